@@ -21,8 +21,8 @@ EXTENDS ArenaCore, Json, IOUtils
 
 Rec == ndJsonDeserialize(IOEnv.TRACE)
 
-VARIABLES l, a, sent, held
-tvars == <<l, a, sent, held>>
+VARIABLES l, a, sent, held, rws
+tvars == <<l, a, sent, held, rws>>
 
 FUEL == 80
 
@@ -167,6 +167,13 @@ Predict(e, ar, se) ==
     [] e.op = "reset" -> PredictReset(e, ar, se)
     [] e.op = "drop" -> PredictDrop(e, ar, se)
     [] e.op = "set_limit" -> Nop([ar EXCEPT !.lim = e.len], se, "ok")
+    \* API-level traces (hooks): the rewind of a failed initialiser's slot is an event of its own; the
+    \* state to rewind to is the one recorded when that slot was reserved (rws)
+    [] e.op = "rewind" ->
+         LET m == SelectSeq(rws, LAMBDA r: r.addr = e.ptr) IN
+         IF m = <<>> THEN Nop(ar, se, "ok")
+         ELSE LET w == Rewind(ar, se, m[Len(m)], e.ptr) IN
+              [a |-> w.a, sent |-> w.sent, res |-> "ok", addr |-> 0, reqs |-> <<>>, frees |-> <<>>, checkaddr |-> FALSE]
     [] OTHER -> Nop(ar, se, "ok")
 
 Step ==
@@ -181,7 +188,10 @@ Step ==
          pr  == Predict(e, ar0, se0)
          same == /\ Obs(pr.a, pr.sent) = ObsOf(e)
                  /\ pr.res = e.res
-         hung == e.res = "hang"
+         \* sizes beyond 2^30 are clamped by the recorders and would overflow TLC's 32-bit integers in the
+         \* model's rounding: no prediction for those events (C19's own machinery owns that range)
+         huge == e.size >= 1073741824 \/ e.len >= 1073741824
+         hung == e.res = "hang" \/ huge
      IN
      /\ Drift("Outcome", hung \/ pr.res = e.res, <<pr.res, e.res>>)
      /\ Drift("ReturnedAddress", hung \/ ~pr.checkaddr \/ pr.res # e.res \/ pr.addr = e.addr, <<pr.addr, e.addr>>)
@@ -193,13 +203,19 @@ Step ==
      /\ Drift("Capacity", hung \/ Capacity(pr.a, pr.sent) = e.cap, <<Capacity(pr.a, pr.sent), e.cap>>)
      /\ Drift("Limit", hung \/ pr.a.lim = e.lim, <<pr.a.lim, e.lim>>)
      /\ Drift("ChunkIteration", e.op = "iter" => IterChunks(pr.a) = e.it /\ e.it = e.itraw, <<IterChunks(pr.a), e.it>>)
-     /\ Drift("SentinelNeverMoves", pr.sent.finger = pr.sent.addr, pr.sent)
-     /\ a' = IF same /\ ~hung THEN pr.a ELSE Resync(e, h1)
+     /\ Drift("SentinelNeverMoves", hung \/ pr.sent.finger = pr.sent.addr, IF hung THEN <<>> ELSE pr.sent)
+     /\ a' = IF ~hung /\ same THEN pr.a ELSE Resync(e, h1)
      /\ sent' = [addr |-> e.sent, finger |-> e.sent]
+     \* remember where the finger stood before each of the last few reservations (for "rewind" events)
+     /\ rws' = LET r0 == IF first THEN <<>> ELSE rws IN
+               IF e.op \in AllocOps /\ e.res = "ok"
+               THEN LET r1 == Append(r0, [addr |-> e.addr, n |-> Len(ar0.ch), finger |-> CurFinger(ar0, se0)])
+                    IN IF Len(r1) > 4 THEN Tail(r1) ELSE r1
+               ELSE r0
      /\ held' = h1
      /\ l' = l + 1
 
-Init == /\ l = 1 /\ held = <<>>
+Init == /\ l = 1 /\ held = <<>> /\ rws = <<>>
         /\ a = [ma |-> 1, lim |-> NoLimit, ch |-> <<>>]
         /\ sent = [addr |-> 0, finger |-> 0]
 Spec == Init /\ [][Step]_tvars
